@@ -519,8 +519,20 @@ class RankEnv:
             for n, p in model.named_parameters()
             if id(p) in reg_params and p.grad is not None
         }
-        inputs_finite = all(bool(torch.isfinite(d).all())
-                            for d in rec['D'].values())
+        inputs_finite = all(
+            bool(torch.isfinite(d).all()) and float(d.abs().max()) < 1e6
+            for d in rec['D'].values() if d.numel())
+        for c in self.caps.values():
+            for t in c['a'] + c['g']:
+                if not bool(torch.isfinite(t).all()) or float(
+                        t.abs().max()) > 1e6:
+                    inputs_finite = False
+        if not inputs_finite:
+            # numerically diverged training: K-FAC state may hold inf from
+            # here on, the finite-in/finite-out clause no longer applies
+            self.diverged = True
+        inputs_finite = inputs_finite and not getattr(self, 'diverged',
+                                                      False)
         core._tl.count_decomp = True
         d0 = _decomp(self.rank)
         steps0 = pre.steps
